@@ -50,6 +50,22 @@ class InjectedFault(Exception):
     """Tagged exception raised by the fault injector (C03)."""
 
 
+def dec(value):
+    """Decode tagged JSON into the value domain: {"__tuple__": [...]} -> tuple, {"__uuid__": s} -> UUID."""
+    if isinstance(value, dict):
+        if len(value) == 1:
+            if '__tuple__' in value:
+                return tuple(dec(v) for v in value['__tuple__'])
+            if '__uuid__' in value:
+                import uuid
+
+                return uuid.UUID(value['__uuid__'])
+        return {k: dec(v) for k, v in value.items()}
+    if isinstance(value, list):
+        return [dec(v) for v in value]
+    return value
+
+
 def step_name(idx):
     return 'run' if idx == 0 else f's{idx}'
 
@@ -287,7 +303,7 @@ class ProgBase(HookMixin, ContextMixin, Process):
         kind = item[0]
         if kind == 'out':
             try:
-                self.out(item[1], item[2])
+                self.out(item[1], dec(item[2]))
                 self._t('out', idx, port=item[1], value=item[2], ok=True)
             except Exception as exc:  # noqa: BLE001 - recorded, the oracle decides
                 if isinstance(exc, InjectedFault):
@@ -296,7 +312,7 @@ class ProgBase(HookMixin, ContextMixin, Process):
                 if self.PROGRAM.get('out_errors_propagate'):
                     raise
         elif kind == 'ctx':
-            self.ctx[item[1]] = item[2]
+            self.ctx[item[1]] = dec(item[2])
         elif kind == 'ctxinc':
             self.ctx[item[1]] = self.ctx.get(item[1], 0) + 1
         elif kind == 'status':
@@ -335,15 +351,15 @@ class ProgBase(HookMixin, ContextMixin, Process):
         if kind == 'continue':
             args = ret[2] if len(ret) > 2 and ret[2] else []
             kwargs = ret[3] if len(ret) > 3 and ret[3] else {}
-            return process_states.Continue(getattr(self, step_name(ret[1])), *args, **kwargs)
+            return process_states.Continue(getattr(self, step_name(ret[1])), *dec(args), **dec(kwargs))
         if kind == 'wait':
             msg = ret[2] if len(ret) > 2 else None
             data = ret[3] if len(ret) > 3 else None
-            return process_states.Wait(getattr(self, step_name(ret[1])), msg, data)
+            return process_states.Wait(getattr(self, step_name(ret[1])), msg, dec(data))
         if kind == 'value':
-            return ret[1]
+            return dec(ret[1])
         if kind == 'stop':
-            return process_states.Stop(ret[1], ret[2])
+            return process_states.Stop(dec(ret[1]), ret[2])
         if kind == 'unsuccessful':
             return plumpy.UnsuccessfulResult(ret[1])
         if kind == 'kill':
